@@ -72,11 +72,19 @@ func genC06(r *kernel.Rand, tier string) *kernel.Scenario {
 		if r.Bool(0.5) {
 			c["yield_pct"], c["long_yields"] = 100, 1 // every lock boundary of the opening is a scheduling point
 		}
+		if r.Bool(0.15) {
+			// many channels between the same two clients, all opened at once by the
+			// same side, each with an immediate first update: more early updates
+			// than any small cache of them holds
+			nch = r.Range(10, 12)
+			c["eager_many"] = 1
+			c["ledger_max_us"] = 20000 // funding confirmations straggle, so the responder's openings complete late
+		}
 	}
 	openers := make([]int, nch)
 	for k := 0; k < nch; k++ {
 		openers[k] = r.Intn(2)
-		if c["eager_open"] == 1 && k > 0 && r.Bool(0.7) {
+		if c["eager_open"] == 1 && k > 0 && (r.Bool(0.7) || c["eager_many"] == 1) {
 			openers[k] = openers[0] // overlapping openings at the same responder
 		}
 		sc.Steps = append(sc.Steps, kernel.St("open", "from", openers[k], "r", int64(r.Uint64()>>2), "app", r.Intn(2), "assets", 1+r.Intn(2)))
@@ -133,6 +141,19 @@ func genC06(r *kernel.Rand, tier string) *kernel.Scenario {
 func execC06(t *testing.T, sc *kernel.Scenario, trace bool) *kernel.Result {
 	return world.RunBubble(t, sc, trace, func(s *world.Sim) {
 		p := newPair(s)
+		if us := sc.Cfg("ledger_max_us", 0); us > 0 {
+			p.w.Ledger.MaxLat = time.Duration(us) * time.Microsecond
+			if sc.Cfg("eager_many", 0) == 1 {
+				// the responder of the openings learns late that the funding is complete
+				p.w.Ledger.ConfirmMax = time.Duration(us) * time.Microsecond
+				for i := range sc.Steps {
+					if sc.Steps[i].Op == "open" {
+						p.w.Ledger.ConfirmOnly = p.n[1-int(sc.Steps[i].Int("from"))&1].Name
+						break
+					}
+				}
+			}
+		}
 		installYields(s)
 		defer removeYields()
 		mode := sc.Cfg("mode", 0)
